@@ -56,6 +56,8 @@ type vfCluster9 struct {
 	// staleAfterLeave[j][i]: after that, j processed a state snapshot taken from i before it left
 	leaveSeen       map[[2]int]bool
 	staleAfterLeave map[[2]int]bool
+	newSM           func(i int) *shardManagerImpl
+	rejoined        int
 }
 
 type vfC09Cfg struct {
@@ -67,6 +69,9 @@ type vfC09Cfg struct {
 	// Preset: before exploration starts instance n1 claims every shard and its announcements are delivered
 	// (exploration starts from a non-initial state: the claims that follow are take-overs).
 	Preset bool `json:"preset,omitempty"`
+	// Rejoin: an instance that left may come back under the same node name (a restarted process: fresh shard manager,
+	// full state exchange with every live instance at join), once its leave has been seen by everybody.
+	Rejoin bool `json:"rejoin,omitempty"`
 }
 
 func vfNode(i int) string { return fmt.Sprintf("n%d", i+1) }
@@ -77,13 +82,16 @@ func vfNewCluster9(cfg vfC09Cfg) *vfCluster9 {
 	for i := 0; i < cfg.N; i++ {
 		addrs[vfNode(i)] = fmt.Sprintf("127.0.0.1:%d", 7000+i)
 	}
-	for i := 0; i < cfg.N; i++ {
+	c.newSM = func(i int) *shardManagerImpl {
 		mc := &config.MemberlistConfig{Enabled: true, NodeName: vfNode(i), ProxyAddresses: addrs}
 		sm := NewShardManager(mc, config.ShardCountConfig{Mode: config.ShardCountRouting}, encryption.TLSConfig{}, vfNoopLoggers()).(*shardManagerImpl)
 		// what Start does, minus opening memberlist sockets: wire the callbacks and mark the manager started
 		sm.SetupCallbacks()
 		sm.started = true
-		c.sms = append(c.sms, sm)
+		return sm
+	}
+	for i := 0; i < cfg.N; i++ {
+		c.sms = append(c.sms, c.newSM(i))
 	}
 	// the instances know each other before any claim is made (full state exchange at join)
 	for i := 0; i < cfg.N; i++ {
@@ -180,10 +188,26 @@ func (c *vfCluster9) enabled() []string {
 			nLeft++
 		}
 	}
-	if nLeft < c.cfg.Leaves {
+	if nLeft < c.cfg.Leaves && c.rejoined == 0 {
 		for i := 0; i < c.n; i++ {
 			if !c.left[i] {
 				out = append(out, fmt.Sprintf("leave:%d", i))
+			}
+		}
+	}
+	if c.cfg.Rejoin && c.rejoined == 0 {
+		for i := 0; i < c.n; i++ {
+			if !c.left[i] {
+				continue
+			}
+			pending := false
+			for _, f := range c.flight {
+				if f.From == i || f.To == i {
+					pending = true // nothing of its previous life is in flight any more
+				}
+			}
+			if !pending {
+				out = append(out, fmt.Sprintf("rejoin:%d", i))
 			}
 		}
 	}
@@ -264,6 +288,24 @@ func (c *vfCluster9) apply(a string) error {
 				c.flight = append(c.flight, &vfFlight{Kind: "leave", From: p, To: j, Desc: fmt.Sprintf("leave(%s)->%s", vfNode(p), vfNode(j)), Seq: c.seq})
 			}
 		}
+	case "rejoin":
+		if !c.left[p] {
+			return fmt.Errorf("action %s not enabled", a)
+		}
+		c.rejoined++
+		c.left[p] = false
+		c.sms[p] = c.newSM(p)
+		c.history = append(c.history, fmt.Sprintf("rejoin:%d", p))
+		for j := 0; j < c.n; j++ {
+			delete(c.leaveSeen, [2]int{j, p})
+			delete(c.staleAfterLeave, [2]int{j, p})
+			if j != p && !c.left[j] {
+				// memberlist: NotifyJoin on the peers, then the push/pull state exchange of the join in both directions
+				(&shardEventDelegate{manager: c.sms[j], logger: log.NewNoopLogger()}).NotifyJoin(&memberlist.Node{Name: vfNode(p)})
+				c.sms[j].delegate.MergeRemoteState(c.sms[p].delegate.LocalState(true), true)
+				c.sms[p].delegate.MergeRemoteState(c.sms[j].delegate.LocalState(true), true)
+			}
+		}
 	default:
 		return fmt.Errorf("unknown action %s", a)
 	}
@@ -297,7 +339,7 @@ func (c *vfCluster9) key() string {
 		return -1
 	}
 	var sb strings.Builder
-	fmt.Fprintf(&sb, "app=%d snaps=%d left=%v|", c.appUsed, c.snapUsed, c.left)
+	fmt.Fprintf(&sb, "app=%d snaps=%d left=%v rejoined=%d|", c.appUsed, c.snapUsed, c.left, c.rejoined)
 	for i, sm := range c.sms {
 		sm.mutex.RLock()
 		var ls []string
@@ -393,7 +435,17 @@ func (c *vfCluster9) quiesce() []vfViolation {
 		if strings.HasPrefix(last, "reg:") {
 			var i, xx int
 			fmt.Sscanf(last, "reg:%d:%d", &i, &xx)
-			if !c.left[i] {
+			restarted := false
+			seenLast := false
+			for _, h := range c.history {
+				if h == last {
+					seenLast = true
+				}
+				if seenLast && h == fmt.Sprintf("rejoin:%d", i) {
+					restarted = true // the claimant restarted after its claim: the claim is gone with the process
+				}
+			}
+			if !c.left[i] && !restarted {
 				if len(owners) != 1 || owners[0] != i {
 					add("convergence/newest-claim-does-not-own", fmt.Sprintf("the newest claim on shard %d is by %s, but at quiescence the owners are %v (history %v)", x, vfNode(i), owners, c.history))
 				}
@@ -737,10 +789,11 @@ func TestVerifC09(t *testing.T) {
 		return
 	}
 	cfgs := []vfC09Cfg{{N: 2, Shards: 1, MaxApp: 3, MaxSnaps: 1, Leaves: 1}, {N: 2, Shards: 2, MaxApp: 2, MaxSnaps: 0, Leaves: 0}, {N: 3, Shards: 1, MaxApp: 2, MaxSnaps: 0, Leaves: 1},
-		{N: 2, Shards: 2, MaxApp: 2, MaxSnaps: 1, Leaves: 0, Preset: true}}
+		{N: 2, Shards: 2, MaxApp: 2, MaxSnaps: 1, Leaves: 0, Preset: true}, {N: 2, Shards: 1, MaxApp: 2, MaxSnaps: 1, Leaves: 1, Rejoin: true}}
 	if vrt.Thorough() {
 		cfgs = []vfC09Cfg{{N: 2, Shards: 2, MaxApp: 3, MaxSnaps: 2, Leaves: 1}, {N: 3, Shards: 1, MaxApp: 3, MaxSnaps: 2, Leaves: 1}, {N: 3, Shards: 2, MaxApp: 3, MaxSnaps: 1, Leaves: 1},
-			{N: 2, Shards: 2, MaxApp: 3, MaxSnaps: 1, Leaves: 1, Preset: true}, {N: 3, Shards: 2, MaxApp: 2, MaxSnaps: 0, Leaves: 0, Preset: true}}
+			{N: 2, Shards: 2, MaxApp: 3, MaxSnaps: 1, Leaves: 1, Preset: true}, {N: 3, Shards: 2, MaxApp: 2, MaxSnaps: 0, Leaves: 0, Preset: true},
+			{N: 2, Shards: 2, MaxApp: 3, MaxSnaps: 1, Leaves: 1, Rejoin: true}, {N: 3, Shards: 1, MaxApp: 2, MaxSnaps: 1, Leaves: 1, Rejoin: true}}
 	}
 	deadline := vrt.Deadline()
 	var states, transitions int64
